@@ -281,7 +281,45 @@ def k_cell(run, case):
         shutil.rmtree(work, ignore_errors=True)
 
 
-KINDS = {"cell": k_cell}
+def k_exe(run, case):
+    """the real executables (fresh interpreter, answers on stdin) on a few representative cells"""
+    import hashlib
+    tool, answer = case["tool"], case["answer"]
+    work = os.path.join(os.environ.get("VMON_WORK", "."), "c17x_%d" % case["rs"][-1])
+    os.makedirs(work, exist_ok=True)
+    try:
+        ind, arr, est = make_inputs(work)
+        out = os.path.join(work, "out")
+        os.makedirs(out)
+        ref, es = os.path.join(ind, "ref.txt"), os.path.join(ind, "est.txt")
+        argv = {"ape": ["tum", ref, es, "--save_results", "r.zip"],
+                "rpe": ["tum", ref, es, "--save_results", "r.zip"],
+                "traj": ["tum", es, "--save_as_tum", "--save_as_kitti"],
+                "config": ["generate", "--align", "-o", "cfg.json"]}[tool]
+        targets = {"ape": ["r.zip"], "rpe": ["r.zip"], "traj": ["est.tum", "est.kitti"], "config": ["cfg.json"]}[tool]
+        for t in targets:
+            open(os.path.join(out, t), "wb").write(b"OLD " + t.encode())
+        before = fsmon.digest_dir(out)
+        p = cli.run_subprocess(tool, argv, out, os.environ["HOME"], stdin_text=(answer + "\n") * 5)
+        after = fsmon.digest_dir(out)
+        run.seen(case, core.digest(tool, answer), cls=["real executable evo_%s answer %r" % (tool, answer)],
+                 sample={"tool": tool, "argv": argv, "answer": answer, "rc": p.returncode})
+        changed = [t for t in targets if after.get(t) != before[t]]
+        if answer == "y":
+            run.check(sorted(changed) == sorted(targets) and p.returncode == 0,
+                      "real executable: 'y' replaces the targets", case,
+                      "evo_%s with answer 'y': changed %s of %s (rc %s, stderr %s)" %
+                      (tool, changed, targets, p.returncode, p.stderr[-200:]), key="exe:not-replaced:" + tool)
+        else:
+            run.check(not changed, "real executable: other answers leave the targets byte-identical", case,
+                      "evo_%s with answer %r modified %s" % (tool, answer, changed), key="exe:overwritten:" + tool)
+        run.check(set(after) <= set(before), "real executable: nothing else written", case,
+                  "unexpected files %s" % sorted(set(after) - set(before)), key="exe:extra:" + tool)
+    finally:
+        shutil.rmtree(work, ignore_errors=True)
+
+
+KINDS = {"cell": k_cell, "exe": k_exe}
 
 
 def install_prompt_bridge():
@@ -329,6 +367,10 @@ def main(run):
                     cells.append({"scenario": s.name, "answer": ans, "no_warnings": nw, "mask": m})
     for i in run.mine(len(cells)):
         k_cell(run, run.case("cell", i, **cells[i]))
+    exe = [{"tool": t, "answer": a} for t in ("ape", "rpe", "traj", "config")
+           for a in (("n", "y") if run.tier == "quick" else ANSWERS)]
+    for i in run.mine(len(exe)):
+        k_exe(run, run.case("exe", i, **exe[i]))
     run.extra["matrix_cells"] = len(cells)
     run.extra["scenarios"] = [s.name for s in S]
     if run.tier == "thorough":
@@ -338,4 +380,6 @@ def main(run):
              "warnings disabled => replaced without asking",
              "no destructive file-system event on a declined target",
              "destructive events on a target come after its confirmation",
-             "confirmation is asked for an existing target", "no unexpected files are written")
+             "confirmation is asked for an existing target", "no unexpected files are written",
+             "real executable: 'y' replaces the targets",
+             "real executable: other answers leave the targets byte-identical")
